@@ -472,6 +472,7 @@ class C04(Prop):
                             return 'isolation: segment %d of generator handler %d of event %d ran %d times (event %d)' % (
                                 k, i, L, len(ps), L)
                         last = ps[0]
+        value_problems = []      # reported last, so that the recorded list-merge finding never masks another problem
         for L, e in sorted(specs.items()):
             results, raises = event_results(e, log)
             f = fin[L]
@@ -479,7 +480,10 @@ class C04(Prop):
                 return 'hang: event %d still has waitingHandlers = %d (event %d)' % (L, f[5], L)
             exp = [0] if not results else results[0] if len(results) == 1 else [3, results]
             if f[1] != exp:
-                return 'value: event %d holds %r, expected %r (event %d)' % (L, f[1], exp, L)
+                merged = (len(results) >= 2 and results[0][0] == 3 and f[1] == [3, results[0][1] + results[1:]])
+                value_problems.append((merged, 'value: event %d holds %r, expected %r (event %d)' % (L, f[1], exp, L)))
+            if f[3] != (len(results) > 0):
+                return 'value: result flag of event %d is %r with %d results (event %d)' % (L, f[3], len(results), L)
             if f[2] != (raises > 0):
                 return 'errors: flag of event %d is %r but %d handlers raised (event %d)' % (L, f[2], raises, L)
             if cnt([3, 2, L]) != raises or cnt([2, 2, L, 0]) != raises or cnt([2, 2, L, 1]) != 0:
@@ -502,6 +506,8 @@ class C04(Prop):
                     return 'success: e%d_success not delivered exactly once on its success_channels (event %d)' % (L, L)
             elif cnt([2, 0, L, 0]) or cnt([2, 0, L, 1]):
                 return 'success: e%d_success dispatched but not expected (event %d)' % (L, L)
+        if value_problems:
+            return sorted(value_problems, key=lambda t: t[0])[0][1]
         return None
 
     def finding_class(self, case, obs, what):
